@@ -1137,7 +1137,7 @@ fn run_a(c: &Case) -> Fails {
         Ok(Err(e)) => {
             // load_mem tries the empty password; "incorrect password" as a LOAD error means it authenticated (else the file would have been left encrypted) and then failed deriving the key
             if c.r >= 5 && upw.is_empty() && format!("{}", e).contains("password is incorrect") {
-                push(&mut f, &ob("perms"), format!("load_mem of the reference-encrypted file failed: {}: the empty user password passed authentication (Algorithm 11) and was then rejected while deriving the file key, i.e. by Algorithm 13, the validation of /Perms = AES-256-ECB(file key, P | ffffffff | T/F | 'adb' | random)", e));
+                push(&mut f, "perms", format!("load_mem of the reference-encrypted file failed: {}: the empty user password passed authentication (Algorithm 11) and was then rejected while deriving the file key, i.e. by Algorithm 13, the validation of /Perms = AES-256-ECB(file key, P | ffffffff | T/F | 'adb' | random)", e));
             } else { push(&mut f, &ob("reference-encrypted-opens-in-lopdf"), format!("load_mem of the reference-encrypted file failed: {}", e)); }
             return f;
         }
@@ -1162,13 +1162,13 @@ fn run_a(c: &Case) -> Fails {
                         else { extra = format!("; file key and object key ({}) agree: the deviation is in the {} data stage (IV / padding / cipher)", hex(&k), cipher.s()); }
                     }
                 }
-                push(f, &ob(name), format!("{}: {}{}", how, df, extra));
+                push(f, &ob(name), format!("lopdf does not return the plaintext of the reference-encrypted document ({}): {}{}", how, df, extra));
                 break;
             }
         }
         for (id, o) in &comp {
             let df = match d.objects.get(&(*id, 0)) { None => Some(format!("object {} 0 (kept in object stream {}) is missing", id, OBJSTM_ID.0)), Some(g) => diff_obj(o, g, &format!("{} 0", id)) };
-            if let Some(df) = df { push(f, &ob("objstm-strings"), format!("{}: {}", how, df)); break; }
+            if let Some(df) = df { push(f, &ob("objstm-strings"), format!("objects kept in the encrypted object stream are not recovered by lopdf ({}): {}", how, df)); break; }
         }
     };
 
@@ -1192,12 +1192,12 @@ fn run_a(c: &Case) -> Fails {
                 Ok(Err(e)) => {
                     // R5/6: the password hash is accepted (Algorithm 11) but the key derivation, which then runs Algorithm 13, says "incorrect password"
                     let perms_stage = c.r >= 5 && label == "user" && format!("{}", e).contains("password is incorrect") && matches!(lib(|| enc.authenticate_user_password(pw)), Ok(Ok(())));
-                    if perms_stage { push(f, &ob("perms"), format!("decrypt with the user password {:?} failed: {}, although authenticate_user_password accepts it (Algorithms 2.B / 11 agree): the rejection comes from Algorithm 13, the validation of /Perms = AES-256-ECB(file key, P | ffffffff | T/F | 'adb' | 4 random bytes) written by the reference", short(pw), e)); }
+                    if perms_stage { push(f, "perms", format!("decrypt with the user password failed although authenticate_user_password accepts it (Algorithms 2.B / 11 agree): the rejection comes from Algorithm 13, the validation of /Perms = AES-256-ECB(file key, P | ffffffff | T/F | 'adb' | 4 random bytes) written by the reference; password {:?}, error: {}", short(pw), e)); }
                     else { push(f, &ob("reference-encrypted-opens-in-lopdf"), format!("decrypt with the {} password {:?} failed: {}; {}", label, short(pw), e, diagnose_a(enc, pwb, &re.fkey, c.r))); }
                 }
                 Ok(Ok(())) => {
                     let key_ok = match d.encryption_state.as_ref().map(|s| s.file_encryption_key().to_vec()) {
-                        Some(k) if k != re.fkey => { push(f, &ob("file-key"), format!("{} with the {} password {:?}: lopdf's file key is {} ({} bytes), the reference encrypted with {} ({} bytes)",
+                        Some(k) if k != re.fkey => { push(f, &ob("file-key"), format!("lopdf derives another file key than the reference encrypted with ({}, the {} password {:?}): lopdf {} ({} bytes), reference {} ({} bytes)",
                             if c.r <= 4 { "Algorithm 2" } else { "Algorithm 2.A" }, label, short(pw), hex(&k), k.len(), hex(&re.fkey), re.fkey.len())); false }
                         _ => true,
                     };
@@ -1336,15 +1336,15 @@ fn run_b(c: &Case) -> Fails {
 
     // --- the encryption dictionary, read the way an independent reader does
     let ed: Dictionary = match src.trailer.get(b"Encrypt") {
-        Ok(Object::Reference(id)) => match src.objects.get(id) { Some(Object::Dictionary(d)) => d.clone(), other => { push(&mut f, &ob("dict-V-R-Length"), format!("/Encrypt {} {} R is {:?}", id.0, id.1, other.map(|o| o.enum_variant()))); return f; } },
+        Ok(Object::Reference(id)) => match src.objects.get(id) { Some(Object::Dictionary(d)) => d.clone(), other => { push(&mut f, "dict-V-R-Length", format!("/Encrypt {} {} R is {:?}", id.0, id.1, other.map(|o| o.enum_variant()))); return f; } },
         Ok(Object::Dictionary(d)) => d.clone(),
-        other => { push(&mut f, &ob("dict-V-R-Length"), format!("trailer /Encrypt is {:?}", other.ok())); return f; }
+        other => { push(&mut f, "dict-V-R-Length", format!("trailer /Encrypt is {:?}", other.ok())); return f; }
     };
     let (v, r) = (get_int(&ed, b"V"), get_int(&ed, b"R"));
     let length = get_int(&ed, b"Length");
     let length_ok = match c.r { 2 => length.is_none() || length == Some(40), 3 => length == Some(c.bits as i64) || (length.is_none() && c.bits == 40), 4 => length.is_none() || length == Some(128), _ => length.is_none() || length == Some(256) };
     if get_name(&ed, b"Filter").as_deref() != Some(b"Standard") || v != Some(c.v()) || r != Some(c.r as i64) || !length_ok || (ed.get(b"Length").is_ok() && length.is_none()) {
-        push(&mut f, &ob("dict-V-R-Length"), format!("{}: /Filter {:?} /V {:?} /R {:?} /Length {:?}; revision {} with a {}-bit key needs /Filter /Standard /V {} /R {} and /Length {}",
+        push(&mut f, "dict-V-R-Length", format!("{}: /Filter {:?} /V {:?} /R {:?} /Length {:?}; revision {} with a {}-bit key needs /Filter /Standard /V {} /R {} and /Length {}",
             via, get_name(&ed, b"Filter").map(|n| String::from_utf8_lossy(&n).to_string()), v, r, ed.get(b"Length").ok(), c.r, c.bits, c.v(), c.r,
             match c.r { 2 => "absent or 40".to_string(), 3 => format!("{}", c.bits), 4 => "absent or 128".into(), _ => "absent or 256".into() }));
     }
@@ -1353,7 +1353,7 @@ fn run_b(c: &Case) -> Fails {
     let want_p = c.p();
     if p_dict != Some(want_p as i64) {
         let how = match p_dict { Some(x) if x as u32 == want_p as u32 && x != want_p as i64 => " (the low 32 bits agree, but the integer is not the signed 32-bit value)", Some(x) if (x as u32) & 0xFFFF_F0C3 != 0xFFFF_F0C0 => " (reserved bits 1-2 must be 0, 7-8 and 13-32 must be 1)", _ => "" };
-        push(&mut f, &ob("P-word"), format!("{}: /P is {:?}, the conforming permission word for access bits {:#06x} is {}{}", via, ed.get(b"P").ok(), c.perm, want_p, how));
+        push(&mut f, "P-word", format!("{}: /P is {:?}, the conforming permission word for access bits {:#06x} is {}{}", via, ed.get(b"P").ok(), c.perm, want_p, how));
     }
     let p_used: i32 = p_dict.map(|x| x as u32 as i32).unwrap_or(want_p);
     // EncryptMetadata and crypt filters
@@ -1361,16 +1361,16 @@ fn run_b(c: &Case) -> Fails {
     let (mut stm_c, mut str_c) = (c.stm, c.strf);
     let mut named: BTreeMap<Vec<u8>, Ciph> = BTreeMap::new();
     if c.r >= 4 {
-        if em_dict != Some(c.em) { push(&mut f, &ob("dict-crypt-filters"), format!("{}: /EncryptMetadata is {:?} (absent means true), requested {}", via, ed.get(b"EncryptMetadata").ok(), c.em)); }
+        if em_dict != Some(c.em) { push(&mut f, &ob("dict-crypt-filters"), format!("the crypt filter entries do not select the requested ciphers per ISO 32000 tables 20/25/26 ({}): /EncryptMetadata is {:?} (absent means true), requested {}", via, ed.get(b"EncryptMetadata").ok(), c.em)); }
         let cf = match ed.get(b"CF") { Ok(Object::Dictionary(d)) => Some(d.clone()), _ => None };
         for (which, key, want) in [("StmF", &b"StmF"[..], c.stm), ("StrF", &b"StrF"[..], c.strf)] {
             let name = get_name(&ed, key);
             match cipher_of(name.as_ref(), cf.as_ref(), c.v()) {
                 Ok(got) => {
-                    if got != want { push(&mut f, &ob("dict-crypt-filters"), format!("{}: /{} /{} selects {} but {} was requested", via, which, name.map(|n| String::from_utf8_lossy(&n).to_string()).unwrap_or_default(), got.s(), want.s())); }
+                    if got != want { push(&mut f, &ob("dict-crypt-filters"), format!("the crypt filter entries do not select the requested ciphers per ISO 32000 tables 20/25/26 ({}): /{} /{} selects {} but {} was requested", via, which, name.map(|n| String::from_utf8_lossy(&n).to_string()).unwrap_or_default(), got.s(), want.s())); }
                     if which == "StmF" { stm_c = got; } else { str_c = got; }
                 }
-                Err(e) => push(&mut f, &ob("dict-crypt-filters"), format!("{}: /{}: {}", via, which, e)),
+                Err(e) => push(&mut f, &ob("dict-crypt-filters"), format!("the crypt filter entries do not select the requested ciphers per ISO 32000 tables 20/25/26 ({}): /{}: {}", via, which, e)),
             }
         }
         if let Some(cf) = &cf { for (k, _) in cf.iter() { if let Ok(x) = cipher_of(Some(k), Some(cf), c.v()) { named.insert(k.clone(), x); } } }
@@ -1380,7 +1380,7 @@ fn run_b(c: &Case) -> Fails {
     // /ID must not be encrypted
     match src.trailer.get(b"ID") {
         Ok(Object::Array(a)) if matches!(a.first(), Some(Object::String(s, _)) if *s == id0) && matches!(a.get(1), Some(Object::String(s, _)) if *s == id1) => {}
-        other => push(&mut f, &ob("id-not-encrypted"), format!("{}: trailer /ID is {:?}, the document had [{} {}]", via, other.ok(), hex(&id0), hex(&id1))),
+        other => push(&mut f, "id-not-encrypted", format!("{}: trailer /ID is {:?}, the document had [{} {}]", via, other.ok(), hex(&id0), hex(&id1))),
     }
 
     // --- keys and password hashes
@@ -1390,8 +1390,8 @@ fn run_b(c: &Case) -> Fails {
     let fkey: Vec<u8>;
     if c.r <= 4 {
         let n = c.n();
-        if o.len() != 32 { push(&mut f, &ob("O-value"), format!("{}: /O has {} bytes instead of 32", via, o.len())); }
-        if u.len() != 32 { push(&mut f, &ob("U-value"), format!("{}: /U has {} bytes instead of 32", via, u.len())); }
+        if o.len() != 32 { push(&mut f, "O-value", format!("{}: /O has {} bytes instead of 32", via, o.len())); }
+        if u.len() != 32 { push(&mut f, "U-value", format!("{}: /U has {} bytes instead of 32", via, u.len())); }
         // Algorithm 3
         let want_o = alg3(c.r, n, &eff_owner, &upw);
         let mut o_ok = true;
@@ -1402,61 +1402,61 @@ fn run_b(c: &Case) -> Fails {
                 why = " - /O is what Algorithm 3 gives with the 32-byte padding string as owner password, but step (a) says: if there is no owner password, use the user password instead".into();
                 if alg7(c.r, n, &[], &o, &u, p_used, &id0, em_dict.unwrap_or(true)).is_some() { why.push_str("; consequence: the empty password passes Algorithm 7 (owner authentication) and yields the file key although the user password is not empty"); }
             }
-            push(&mut f, &ob("O-value"), format!("{}: Algorithm 3: /O is {}, the reference computes {} for owner password {:?} (effective {:?}) and user password {:?}{}", via, hex(&o), hex(&want_o), short(&c.owner), short(&String::from_utf8_lossy(&eff_owner)), short(&c.user), why));
+            push(&mut f, "O-value", format!("Algorithm 3: the O entry differs from the reference's computation ({}): /O is {}, the reference computes {} for owner password {:?} (effective {:?}) and user password {:?}{}", via, hex(&o), hex(&want_o), short(&c.owner), short(&String::from_utf8_lossy(&eff_owner)), short(&c.user), why));
         }
         // Algorithm 2 and 4/5
         let key2 = alg2(c.r, n, &upw, &o, p_used, &id0, em_dict.unwrap_or(true));
         if lib_key != key2 {
-            push(&mut f, &ob("file-key"), format!("{}: Algorithm 2: lopdf's file key is {} ({} bytes), the reference derives {} ({} bytes) from the user password, /O, P = {}, ID[0] = {}{}", via, hex(&lib_key), lib_key.len(), hex(&key2), key2.len(), p_used, hex(&id0),
+            push(&mut f, "file-key", format!("Algorithm 2: lopdf's file key differs from the reference's derivation ({}): lopdf holds {} ({} bytes), the reference derives {} ({} bytes) from the user password, /O, P = {}, ID[0] = {}{}", via, hex(&lib_key), lib_key.len(), hex(&key2), key2.len(), p_used, hex(&id0),
                 if c.r >= 4 && !em_dict.unwrap_or(true) { ", ffffffff" } else { "" }));
         }
         let want_u = if c.r == 2 { alg4(&key2) } else { alg5(&key2, &id0) };
         let cmp = if c.r == 2 { 32 } else { 16 };
         if u.len() < cmp || u[..cmp] != want_u[..cmp] {
-            push(&mut f, &ob("U-value"), format!("{}: Algorithm {}: the first {} bytes of /U are {}, the reference computes {}", via, if c.r == 2 { 4 } else { 5 }, cmp, hex(&u[..cmp.min(u.len())]), hex(&want_u[..cmp])));
+            push(&mut f, "U-value", format!("Algorithm 4/5: the U entry differs from the reference's computation ({}, Algorithm {}): the first {} bytes of /U are {}, the reference computes {}", via, if c.r == 2 { 4 } else { 5 }, cmp, hex(&u[..cmp.min(u.len())]), hex(&want_u[..cmp])));
         }
         // Algorithms 6 and 7 on the dictionary as written
         match alg6(c.r, n, &upw, &o, &u, p_used, &id0, em_dict.unwrap_or(true)) {
             Some(k) => fkey = k,
-            None => { push(&mut f, &ob("lopdf-encrypted-opens-in-reference"), format!("{}: Algorithm 6: the reference does not accept the user password {:?}", via, short(&c.user))); fkey = lib_key.clone(); }
+            None => { push(&mut f, &ob("lopdf-encrypted-opens-in-reference"), format!("Algorithm 6: the reference does not accept the user password ({}): {:?}", via, short(&c.user))); fkey = lib_key.clone(); }
         }
         if o_ok {
             match alg7(c.r, n, &eff_owner, &o, &u, p_used, &id0, em_dict.unwrap_or(true)) {
                 Some(k) if k == fkey => {}
-                other => push(&mut f, &ob("lopdf-encrypted-opens-in-reference"), format!("{}: Algorithm 7: the owner password {:?} gives {:?} instead of the file key {}", via, short(&c.owner), other.map(|k| hex(&k)), hex(&fkey))),
+                other => push(&mut f, &ob("lopdf-encrypted-opens-in-reference"), format!("Algorithm 7: the owner password does not lead the reference to the file key ({}): {:?} gives {:?} instead of {}", via, short(&c.owner), other.map(|k| hex(&k)), hex(&fkey))),
             }
         }
     } else {
         let (oe, ue, perms) = (get_str(&ed, b"OE").unwrap_or_default(), get_str(&ed, b"UE").unwrap_or_default(), get_str(&ed, b"Perms").unwrap_or_default());
         let mut shape_ok = true;
-        if u.len() != 48 || ue.len() != 32 { push(&mut f, &ob("U-value"), format!("{}: /U has {} bytes and /UE {} (48 and 32 required)", via, u.len(), ue.len())); shape_ok = false; }
-        if o.len() != 48 || oe.len() != 32 { push(&mut f, &ob("O-value"), format!("{}: /O has {} bytes and /OE {} (48 and 32 required)", via, o.len(), oe.len())); shape_ok = false; }
-        if lib_key != given_key { push(&mut f, &ob("file-key"), format!("{}: the state holds the file key {} instead of the given {}", via, hex(&lib_key), hex(&given_key))); }
+        if u.len() != 48 || ue.len() != 32 { push(&mut f, "U-value", format!("{}: /U has {} bytes and /UE {} (48 and 32 required)", via, u.len(), ue.len())); shape_ok = false; }
+        if o.len() != 48 || oe.len() != 32 { push(&mut f, "O-value", format!("{}: /O has {} bytes and /OE {} (48 and 32 required)", via, o.len(), oe.len())); shape_ok = false; }
+        if lib_key != given_key { push(&mut f, "file-key", format!("the state does not hold the given file key ({}): {} instead of {}", via, hex(&lib_key), hex(&given_key))); }
         fkey = given_key.clone();
         if shape_ok {
             let hash_name = if c.r == 6 { "Algorithm 2.B" } else { "SHA-256" };
             // Algorithm 8 / 11
             let hu = alg2b(c.r, &upw, &u[32..40], &[]);
-            if hu[..] != u[..32] { push(&mut f, &ob("U-value"), format!("{}: Algorithm 8 (a): /U[0..32] is {}, {} of the user password ({} bytes) and the validation salt {} is {}", via, hex(&u[..32]), hash_name, upw.len(), hex(&u[32..40]), hex(&hu))); }
+            if hu[..] != u[..32] { push(&mut f, "U-value", format!("Algorithm 8 (a): the hash in the U entry differs from the reference's ({}): /U[0..32] is {}, {} of the user password ({} bytes) and the validation salt {} is {}", via, hex(&u[..32]), hash_name, upw.len(), hex(&u[32..40]), hex(&hu))); }
             let ku = aes_cbc_dec(&alg2b(c.r, &upw, &u[40..48], &[]), &[0u8; 16], &ue);
-            if ku != given_key { push(&mut f, &ob("file-key"), format!("{}: Algorithm 8 (b) / 2.A: /UE decrypts to {} with the key from the user password and the key salt {}, the file key is {}", via, hex(&ku), hex(&u[40..48]), hex(&given_key))); }
+            if ku != given_key { push(&mut f, "file-key", format!("Algorithm 8 (b) / 2.A: the UE entry does not unwrap to the file key ({}): /UE decrypts to {} with the key from the user password and the key salt {}, the file key is {}", via, hex(&ku), hex(&u[40..48]), hex(&given_key))); }
             // Algorithm 9 / 12
             let ho = alg2b(c.r, &opw, &o[32..40], &u);
-            if ho[..] != o[..32] { push(&mut f, &ob("O-value"), format!("{}: Algorithm 9 (a): /O[0..32] is {}, {} of the owner password ({} bytes), the validation salt {} and the 48-byte /U is {}", via, hex(&o[..32]), hash_name, opw.len(), hex(&o[32..40]), hex(&ho))); }
+            if ho[..] != o[..32] { push(&mut f, "O-value", format!("Algorithm 9 (a): the hash in the O entry differs from the reference's ({}): /O[0..32] is {}, {} of the owner password ({} bytes), the validation salt {} and the 48-byte /U is {}", via, hex(&o[..32]), hash_name, opw.len(), hex(&o[32..40]), hex(&ho))); }
             let ko = aes_cbc_dec(&alg2b(c.r, &opw, &o[40..48], &u), &[0u8; 16], &oe);
-            if ko != given_key { push(&mut f, &ob("file-key"), format!("{}: Algorithm 9 (b) / 2.A: /OE decrypts to {} with the key from the owner password, the key salt {} and /U, the file key is {}", via, hex(&ko), hex(&o[40..48]), hex(&given_key))); }
+            if ko != given_key { push(&mut f, "file-key", format!("Algorithm 9 (b) / 2.A: the OE entry does not unwrap to the file key ({}): /OE decrypts to {} with the key from the owner password, the key salt {} and /U, the file key is {}", via, hex(&ko), hex(&o[40..48]), hex(&given_key))); }
             // Algorithm 2.A as a reader runs it
             for (pw, label) in [(&upw, "user"), (&opw, "owner")] {
                 match alg2a(c.r, pw, &o, &u, &oe, &ue) {
                     Some((k, _)) if k == given_key => {}
-                    other => push(&mut f, &ob("lopdf-encrypted-opens-in-reference"), format!("{}: Algorithm 2.A: the {} password gives {:?} instead of the file key", via, label, other.map(|(k, w)| format!("{} as {}", hex(&k), w)))),
+                    other => push(&mut f, &ob("lopdf-encrypted-opens-in-reference"), format!("Algorithm 2.A: a password does not lead the reference to the file key ({}): the {} password gives {:?}", via, label, other.map(|(k, w)| format!("{} as {}", hex(&k), w)))),
                 }
             }
         }
         // Algorithm 10 / 13
         if let Err(e) = alg13(&given_key, &perms, p_used, em_dict.unwrap_or(true)) {
             let raw = perms.len() == 16 && &perms[9..12] == b"adb" && perms[..4] == (p_used as u32).to_le_bytes() && (perms[8] == b'T' || perms[8] == b'F');
-            push(&mut f, &ob("perms"), format!("{}: Algorithm 10/13: {}{}", via, e, if raw { format!("; the stored /Perms {} is the PLAINTEXT block (P, ffffffff, T/F, 'adb', 4 random bytes): Algorithm 10 step (f), AES-256 ECB encryption with the file key, was not applied", hex(&perms)) } else { String::new() }));
+            push(&mut f, "perms", format!("Algorithm 10/13: the Perms entry does not decrypt to a valid block ({}): {}{}", via, e, if raw { format!("; the stored /Perms {} is the PLAINTEXT block (P, ffffffff, T/F, 'adb', 4 random bytes): Algorithm 10 step (f), AES-256 ECB encryption with the file key, was not applied", hex(&perms)) } else { String::new() }));
         }
     }
 
@@ -1487,7 +1487,7 @@ fn run_b(c: &Case) -> Fails {
                     else { extra = format!("; the object keys agree ({})", hex(&k)); }
                 }
             } else { extra = "; the dictionary selects /Identity for this item, so it has to be stored unencrypted".into(); }
-            push(&mut f, &ob(name), format!("{}: after decryption by the reference with file key {}: {}{}", via, hex(&fkey), pr, extra));
+            push(&mut f, &ob(name), format!("the reference, after authenticating, does not recover the plaintext ({}): {}{}; file key {}", via, pr, extra, hex(&fkey)));
             break;
         }
     }
